@@ -578,6 +578,13 @@ def run(repo, rep):
         except SyntaxError:
             return t
         return norm(_Present().visit(e_))
+    whole = [e for e, _s in st if len(e.args) < 2]
+    if whole:
+        # ``self.sop_classes_as_scu = <a dict built in a local>``: the table is replaced as a whole, its entries were written to a
+        # local the store events do not follow
+        rep.undecided('C11.Q3', '%s: the SCU table is assigned as a whole at line %d (built in a local first): which entries it gets '
+                      'is not followed' % (req.loc(), whole[0].line))
+        st = [(e, s) for e, s in st if len(e.args) >= 2]
     for e, s in st:
         key, val = present(expand_items(e.args[0])), present(expand_items(e.args[1]))
         conds = [expand_items(x) for x in e.conds]
